@@ -97,7 +97,8 @@ def _run_variants(st, payload):
 
 def coverage(total, tier):
     cov = std_coverage(total, {
-        'T': f'{len(tt.t_atoms())} try-body atoms (19 base atoms, each also under preempt / if / three loop shapes); all bodies of '
+        'T': f'{len(tt.t_atoms()) - len(tt.pl_atoms())} try-body atoms (19 base atoms, each also under preempt / if / three loop shapes) plus {len(tt.pl_atoms())} loops containing a preempt block '
+             f'({len(tt.PL_BODIES)} ways a preempt body can end: return / break / continue / fall through, alone and behind a condition or a nested loop, x defeat inside the loop, after it, or both; single-atom bodies x undo/stop); all bodies of '
              'length<=2' + (' plus length 3 over 19 atoms' if tier == 'thorough' else ' with at least one non-nesting atom') + ' x {undo, stop}; 3 further handler bodies '
              '(return, nested try, you-call) on ' + ('single atoms and all base pairs' if tier == 'thorough' else 'single atoms') + '; x in 0,1,2',
         'H': '20 try blocks (10 bodies x undo/stop): all ordered pairs in three shapes (straight line, loop run 3 times, you-function '
